@@ -900,11 +900,24 @@ func regRunTypes(c *Ctx, pool []*regFile, nops int) {
 		}
 		return regIDList(ids, true)
 	}
+	var tried []int
 	for step := 0; step < nops; step++ {
 		var op, ob string
 		switch k := c.Intn(20); {
 		case k < 8:
 			i := c.Intn(len(tp))
+			if len(tried) > 0 && c.Intn(3) == 0 {
+				// another pool entry with the name of a type already tried: name conflicts between
+				// different descriptors (for extensions: after the number check has passed)
+				want := tp[tried[c.Intn(len(tried))]].name
+				for j, off := 0, c.Intn(len(tp)); j < len(tp); j++ {
+					if cand := (j + off) % len(tp); tp[cand].name == want {
+						i = cand
+						break
+					}
+				}
+			}
+			tried = append(tried, i)
 			t := tp[i]
 			before := regTypesProbe(tp, r, append(probe, t.name, t.extendee))
 			var err error
